@@ -13,7 +13,7 @@ import struct
 import sys
 
 REPO = os.environ.get("VERIF_REPO", "/repo")
-OUT = os.path.join(os.path.dirname(os.path.abspath(__file__)), "..", "lean", "Shp", "Gen", "Tables.lean")
+OUT = os.environ.get("VERIF_TABLES_OUT") or os.path.join(os.path.dirname(os.path.abspath(__file__)), "..", "lean", "Shp", "Gen", "Tables.lean")
 
 
 class TranslateError(Exception):
@@ -310,7 +310,22 @@ def f64_bits(text):
     return struct.unpack("<Q", struct.pack("<d", float(text)))[0]
 
 
-def parse_consts(files):
+def const_int(expr):
+    """value of a constant integer expression made of literals, + - * << and parentheses"""
+    e = re.sub(r"(?<=\d)_(?=\d)", "", expr)
+    e = re.sub(r"(\d)(usize|u64|u32|i32|i64)\b", r"\1", e).strip()
+    if not re.fullmatch(r"[\d\s+\-*()<]+", e):
+        raise TranslateError(f"constant expression not understood: {expr.strip()}")
+    try:
+        return int(eval(e, {"__builtins__": {}}))
+    except Exception:
+        raise TranslateError(f"constant expression not understood: {expr.strip()}")
+
+
+def parse_public_consts(files, executed=None):
+    """constants that show in the bytes: read off the bytes when the crate could be executed"""
+    if executed:
+        return dict(executed)
     c = {}
     m = re.search(r"const HEADER_SIZE: i32 = (\d+);", files["header.rs"])
     c["headerSize"] = int(m.group(1)) if m else None
@@ -320,14 +335,32 @@ def parse_consts(files):
     c["version"] = int(m.group(1)) if m else None
     m = re.search(r"pub const NO_DATA: f64 = ([-\de.+]+);", files["record/mod.rs"])
     c["noDataBits"] = f64_bits(m.group(1)) if m else None
-    m = re.search(r"fn is_no_data\(val: f64\) -> bool \{\s*val (<=|<) NO_DATA\s*\}", files["record/mod.rs"])
-    c["isNoDataLe"] = None if not m else (1 if m.group(1) == "<=" else 0)
-    m = re.search(r"const MAX_PREALLOCATED_ELEMENTS: usize = (\d+);", files["record/io.rs"])
-    c["maxPrealloc"] = int(m.group(1)) if m else None
     m = re.search(r"const INDEX_RECORD_SIZE: usize = 2 \* std::mem::size_of::<i32>\(\);", files["reader.rs"])
     c["indexRecordSize"] = 8 if m else None
     m = re.search(r"pub\(crate\) const SIZE: usize = 2 \* std::mem::size_of::<i32>\(\);", files["record/mod.rs"])
     c["recordHeaderSize"] = 8 if m else None
+    return need(c)
+
+
+def need(c):
+    missing = [k for k, v in c.items() if v is None]
+    if missing:
+        raise TranslateError(f"constants not found in the expected form: {missing}")
+    return c
+
+
+def parse_nodata_cmp(files):
+    m = re.search(r"fn is_no_data\(val: f64\) -> bool \{\s*val (<=|<) NO_DATA\s*\}", files["record/mod.rs"])
+    return need({"isNoDataLe": None if not m else (1 if m.group(1) == "<=" else 0)})
+
+
+def parse_prealloc(files):
+    m = re.search(r"const\s+MAX_PREALLOCATED_ELEMENTS\s*:\s*usize\s*=\s*([^;]+);", files["record/io.rs"])
+    return need({"maxPrealloc": const_int(m.group(1)) if m else None})
+
+
+def parse_sentinels(files):
+    c = {}
     w = strip_comments(files["writer.rs"])
     m = re.search(r"max:\s*PointZ::new\(\s*((?:f64::\w+\s*,?\s*){4})\)\s*,\s*min:\s*PointZ::new\(\s*((?:f64::\w+\s*,?\s*){4})\)", w)
     def sent(txt):
@@ -388,6 +421,10 @@ def parse_alloc_sites(files):
                 expr = inner.split(";", 1)[1]
                 kind = "vec!"
             expr = re.sub(r"\s+", "", expr)
+            # one spelling for a minimum: `a.min(b)`, `min(a, b)`, `cmp::min(a, b)`, `std::cmp::min(b, a)`
+            mm = re.fullmatch(r"(?:std::)?(?:cmp::)?min\((.+?),(.+)\)", expr) or re.fullmatch(r"(.+?)\.min\((.+)\)", expr)
+            if mm:
+                expr = "min{" + ",".join(sorted([mm.group(1), mm.group(2)])) + "}"
             # only the code a READ goes through: the reader, the record readers and their helpers;
             # conversions between in-memory values (`from`, `try_from`, `convert_*`) size their
             # results by collections that already exist and are not part of the claim
@@ -401,7 +438,7 @@ def parse_alloc_sites(files):
 
 
 CACHE = os.path.join(os.path.dirname(os.path.abspath(__file__)), "tables_cache.txt")
-STATUS = os.path.join(os.path.dirname(os.path.dirname(os.path.abspath(__file__))), "work", "translate_status.json")
+STATUS = os.environ.get("VERIF_TABLES_STATUS") or os.path.join(os.path.dirname(os.path.dirname(os.path.abspath(__file__))), "work", "translate_status.json")
 
 
 def exec_tables():
@@ -437,7 +474,7 @@ def save_state(cache, status):
     import json, pprint
     # the cache only moves forward when EVERY section was re-derived (so that it always holds one
     # coherent derivation), and never at run time of a check on a modified tree unless asked to
-    if all(v == "ok" for v in status.values()) and os.environ.get("VERIF_UPDATE_TABLES_CACHE") == "1":
+    if all(v == "ok" for k, v in status.items() if not k.startswith("_")) and os.environ.get("VERIF_UPDATE_TABLES_CACHE") == "1":
         with open(CACHE, "w") as f:
             f.write(pprint.pformat(cache, width=160))
     os.makedirs(os.path.dirname(STATUS), exist_ok=True)
@@ -496,7 +533,11 @@ def emit():
         status["size_in_bytes"] = status["size_of_record"] = status.pop("sizes")
     ptsizes = section("point_sizes", lambda: parse_point_read_sizes(files["record/point.rs"]))
     parms, pwr, prd, pclose = section("patch", pick("patch", lambda: parse_patch(files["record/multipatch.rs"])))
-    consts = section("consts", lambda: parse_consts(files))
+    consts = {}
+    consts.update(section("consts_public", lambda: parse_public_consts(files, ex.get("consts_exec") if ex is not None else None)))
+    consts.update(section("const_nodata_cmp", lambda: parse_nodata_cmp(files)))
+    consts.update(section("const_prealloc", lambda: parse_prealloc(files)))
+    consts.update(section("const_sentinels", lambda: parse_sentinels(files)))
     alloc_sites = section("alloc_sites", lambda: parse_alloc_sites(files))
     save_state(cache, status)
 
